@@ -485,6 +485,25 @@ func (s *IndexedState) rem(ctx *Context, id string) (bool, error) {
 	return have, nil
 }
 
+// remHookDependent runs the remHook for a fact that is about to be
+// deleted along with the fact it depends on.  We are in the middle
+// of a rem(), so the hook must not try to get the state lock.
+func (s *IndexedState) remHookDependent(ctx *Context, id string) error {
+	if s.remHook == nil {
+		return nil
+	}
+	if !ctx.isPrivileged("hook") {
+		s.withPrivilege(ctx)
+		defer s.withoutPrivilege(ctx)
+	}
+	err := s.remHook(ctx, s, id)
+	if err != nil {
+		Log(ERROR, ctx, "IndexedState.deleteDependencies", "state", s.Name, "error", err,
+			"id", id, "when", "remHook")
+	}
+	return err
+}
+
 func (s *IndexedState) deleteDependencies(ctx *Context, id string) error {
 	Log(DEBUG, ctx, "IndexedState.deleteDependencies", "location", s.Name, "id", id)
 	srs, err := s.search(ctx, Map{KW_DeleteWith: []string{id}})
@@ -496,6 +515,9 @@ func (s *IndexedState) deleteDependencies(ctx *Context, id string) error {
 	for _, sr := range srs.Found {
 		Log(DEBUG, ctx, "IndexedState.deleteDependencies",
 			"location", s.Name, "id", id, "target", sr.Id)
+		if err := s.remHookDependent(ctx, sr.Id); nil != err {
+			return err
+		}
 		if _, err := s.rem(ctx, sr.Id); nil != err {
 			return err
 		}
